@@ -22,7 +22,7 @@ func init() {
 	register("C09", &propDef{
 		Title: "A bundle survives being re-opened and archived",
 		Rules: []func(*Checker){ruleC09Fields, ruleC09Archive, ruleChecksum("C09.checksum"), ruleC06ManifestAs("C09.addrs"),
-			ruleRootSymmetric("C09.symmetric"), ruleLinkPrecise("C09.linkprecise"),
+			ruleRootSymmetric("C09.symmetric"), ruleLinkPrecise("C09.linkprecise"), ruleC09Answers,
 			aliasRuleFiltered(ruleC06CanonURL, "C06.canonurl", "C09.canonkey", 1, func(o Oblig) bool { return strings.Contains(o.Key, "canonical") }),
 			aliasRuleFiltered(ruleC13Maps, "C13.maps", "C09.lookup", 3, func(o Oblig) bool { return strings.Contains(o.Key, "sourcebundle.Bundle)") || strings.Contains(o.Key, "sourcebundle.OpenDir/") })},
 		NotDecided: []string{
@@ -40,7 +40,7 @@ func init() {
 	})
 	register("C17", &propDef{
 		Title: "Registry sources resolve to the newest allowed version",
-		Rules: []func(*Checker){ruleC17Dep, ruleC17None, ruleC17Final},
+		Rules: []func(*Checker){ruleC17Dep, ruleC17None, ruleC17Final, ruleCtxNonNil("C17.ctx")},
 		NotDecided: []string{
 			"which version is newest (ordering inside go-versions, trusted library)",
 			"'first listed' vs 'newest' when both depend on the same inputs is only caught through the library-callee identity",
@@ -1509,6 +1509,167 @@ func ruleC18Reverse(c *Checker) {
 		}
 	}
 	c.check(relOK, R, name, "relative to the bundle root", p.Pos(fn.Pos()), "filepath.Rel(b.rootDir, abs)", "the path is not taken relative to the bundle root")
+	c.check(len(successReturns(fn)) > 0, R, name, "can succeed", p.Pos(fn.Pos()), fmt.Sprintf("%d success return(s)", len(successReturns(fn))), "no return of the reverse lookup yields an address: every path, inside a package or not, is refused")
+	reverseDetail(c, R, fn, revRanges)
+}
+
+// reverseDetail: the finer structure of the reverse lookup — how the first
+// segment is cut off, what it is compared with, and what "found" means.
+func reverseDetail(c *Checker, R string, fn *ssa.Function, ranges []mapRange) {
+	p := c.P
+	name := p.FuncName(fn)
+	// the cut of the first segment
+	var cut *ssa.Call
+	for _, ci := range callsIn(fn) {
+		if cl, ok := ci.(*ssa.Call); ok && (isFunc(calleeObj(cl), "strings", "Cut") || isFunc(calleeObj(cl), "strings", "SplitN") || isFunc(calleeObj(cl), "strings", "Index") || isFunc(calleeObj(cl), "strings", "IndexByte")) {
+			cut = cl
+		}
+	}
+	if cut == nil {
+		c.fail(R, name, "first segment cut off", p.Pos(fn.Pos()), "the path from the root is not split at its first separator")
+		return
+	}
+	sepOK := false
+	if k, ok := constString(cut.Call.Args[1]); ok && k == "/" {
+		sepOK = true
+	}
+	if k, ok := constInt(cut.Call.Args[1]); ok && k == '/' {
+		sepOK = true
+	}
+	c.check(sepOK, R, name, "first segment cut at \"/\"", p.Pos(cut.Pos()), "separator \"/\"", "the path from the root is split at something other than a single \"/\": the first segment is then never a package directory name, so every path inside a package is reported as not belonging to the bundle (or sub-paths are mis-cut)")
+	// from the Rel result to the cut: only slash conversion and cleaning
+	cleaned := cut.Call.Args[0]
+	v := cleaned
+	chainOK, bad := false, ""
+	for i := 0; i < 6; i++ {
+		cv := canon(v)
+		if ex, ok := cv.(*ssa.Extract); ok {
+			if cl, ok := ex.Tuple.(*ssa.Call); ok && isFunc(calleeObj(cl), "path/filepath", "Rel") {
+				chainOK = true
+			}
+			break
+		}
+		cl, ok := cv.(*ssa.Call)
+		if !ok {
+			break
+		}
+		o := calleeObj(cl)
+		if isFunc(o, "path", "Clean") || isFunc(o, "path/filepath", "ToSlash") || isFunc(o, "path/filepath", "Clean") {
+			v = cl.Call.Args[0]
+			continue
+		}
+		bad = fullName(o)
+		break
+	}
+	c.check(chainOK, R, name, "the path that is cut is the path from the root", p.Pos(cut.Pos()), "filepath.Rel result, slash-converted and cleaned only", "what is split into package directory and sub-path is not the cleaned path from the bundle root ("+bad+" in between): the last segment is dropped or the wrong one kept, so a file maps to another file's address")
+	neT, _ := condEdges(fn, func(x ssa.Value) bool {
+		bo, ok := x.(*ssa.BinOp)
+		if !ok || bo.Op != token.NEQ {
+			return false
+		}
+		k, isC := constString(bo.Y)
+		return isC && k == "." && canon(bo.X) == canon(cleaned)
+	})
+	_, eqF := condEdges(fn, func(x ssa.Value) bool {
+		bo, ok := x.(*ssa.BinOp)
+		if !ok || bo.Op != token.EQL {
+			return false
+		}
+		k, isC := constString(bo.Y)
+		return isC && k == "." && canon(bo.X) == canon(cleaned)
+	})
+	notRoot := append(neT, eqF...)
+	// the found flag
+	for _, mr := range ranges {
+		if mapDesc(mr.Range.X) != "remotePackageDirs" || mr.Fn != fn {
+			continue
+		}
+		var flag *ssa.Phi
+		for _, in := range mr.Head.Instrs {
+			if ph, ok := in.(*ssa.Phi); ok && isBoolType(ph.Type()) {
+				flag = ph
+			}
+		}
+		if flag == nil {
+			c.fail(R, name, "found flag", p.Pos(mr.Range.Pos()), "no boolean carried round the candidate loop: the lookup cannot tell a matched package from none")
+			continue
+		}
+		flagT, _ := boolEdges(fn, flag)
+		for i, r := range successReturns(fn) {
+			c.check(len(flagT) > 0 && guarded(r.Block(), flagT), R, name, fmt.Sprintf("success return %d only when a package matched", i), p.Pos(r.Pos()), "past the true edge of the found flag", "an address is returned although no package directory matched (the zero package), or the not-found test is inverted so that every path inside a package is refused")
+			c.check(len(notRoot) > 0 && guarded(r.Block(), notRoot), R, name, fmt.Sprintf("success return %d not for the bundle root", i), p.Pos(r.Pos()), "past the test that the path from the root is not \".\"", "the test for the bundle root itself is missing or inverted: every path below the root is refused (or the root is translated)")
+		}
+		// how the flag becomes true: only past the equality of the candidate's directory with the first segment
+		var val ssa.Value
+		if refs := mr.Next.Referrers(); refs != nil {
+			for _, r := range *refs {
+				if ex, ok := r.(*ssa.Extract); ok && ex.Index == 2 {
+					val = ex
+				}
+			}
+		}
+		isDirCmp := func(x ssa.Value, op token.Token) bool {
+			bo, ok := x.(*ssa.BinOp)
+			if !ok || bo.Op != op || val == nil {
+				return false
+			}
+			other := bo.Y
+			if canon(bo.X) != val {
+				if canon(bo.Y) != val {
+					return false
+				}
+				other = bo.X
+			}
+			// the other side is the first segment
+			return p.backSlice(other, 0)[cut]
+		}
+		eqT, _ := condEdges(fn, func(x ssa.Value) bool { return isDirCmp(x, token.EQL) })
+		_, neFalse := condEdges(fn, func(x ssa.Value) bool { return isDirCmp(x, token.NEQ) })
+		same := append(eqT, neFalse...)
+		var setOK func(v ssa.Value, pred *ssa.BasicBlock, seen map[ssa.Value]bool) bool
+		setOK = func(v ssa.Value, pred *ssa.BasicBlock, seen map[ssa.Value]bool) bool {
+			if v == ssa.Value(flag) || seen[v] {
+				return true
+			}
+			seen[v] = true
+			if b, isC := constBool(v); isC {
+				return !b || (len(same) > 0 && guarded(pred, same))
+			}
+			if ph, ok := v.(*ssa.Phi); ok {
+				for i, e := range ph.Edges {
+					if !setOK(e, ph.Block().Preds[i], seen) {
+						return false
+					}
+				}
+				return true
+			}
+			return false
+		}
+		okSet := true
+		for i, e := range flag.Edges {
+			if !setOK(e, mr.Head.Preds[i], map[ssa.Value]bool{}) {
+				okSet = false
+			}
+		}
+		c.check(okSet, R, name, "found only for a candidate whose directory is the first segment", p.Pos(flag.Pos()), "the flag is set only past the equality of the recorded directory with the first segment", "a candidate is kept although its directory differs from the path's first segment (the comparison is missing or inverted): paths map to the wrong package, and the matching package is skipped")
+		// choosing among several candidates only once one is held
+		okTie := true
+		for b := range mr.Body {
+			for _, in := range b.Instrs {
+				bo, ok := in.(*ssa.BinOp)
+				if !ok {
+					continue
+				}
+				switch bo.Op {
+				case token.GTR, token.LSS, token.GEQ, token.LEQ:
+					if !(len(flagT) > 0 && guarded(b, flagT)) {
+						okTie = false
+					}
+				}
+			}
+		}
+		c.check(okTie, R, name, "tie-break only against a held candidate", p.Pos(mr.Range.Pos()), "the comparisons with the kept candidate sit past the true edge of the found flag", "the first candidate is compared with the zero package (whose text is empty and so always shorter): no candidate is ever kept and every path is refused")
+	}
 }
 
 // ruleC08Meta: what the fetcher and the registry supplied is recorded on every
@@ -1866,5 +2027,35 @@ func ruleRootSymmetric(id string) func(*Checker) {
 			}
 		}
 		c.check(n > 0, id, "-", "paths taken relative to the root", "-", fmt.Sprintf("%d site(s)", n), "no Bundle method takes a path relative to rootDir with filepath.Rel")
+	}
+}
+
+// C09.answers — the listing methods of a Bundle can answer.
+func ruleC09Answers(c *Checker) {
+	const R = "C09.answers"
+	c.rule(R, "Every exported method of Bundle whose single result is a slice has a return whose value is not the nil constant, and its value derives from a field of the receiver: a listing method all of whose returns are nil (its loop cut off by a constant condition or an early return) cannot read back what the manifest recorded.", 3)
+	p := c.P
+	for _, fn := range p.Funcs {
+		if !inBundlePkg(p, fn) || fn.Signature.Recv() == nil || !isNamedT(derefType(fn.Signature.Recv().Type()), "Bundle") || fn.Object() == nil || !fn.Object().Exported() {
+			continue
+		}
+		res := fn.Signature.Results()
+		if res.Len() != 1 {
+			continue
+		}
+		if _, isSlice := res.At(0).Type().Underlying().(*types.Slice); !isSlice {
+			continue
+		}
+		okAns := false
+		for _, r := range returnsOf(fn) {
+			if len(r.Results) == 1 && !isNilConst(r.Results[0]) {
+				for w := range p.backSlice(r.Results[0], 0) {
+					if fa, ok := w.(*ssa.FieldAddr); ok && isNamedT(derefType(fa.X.Type()), "Bundle") {
+						okAns = true
+					}
+				}
+			}
+		}
+		c.check(okAns, R, p.FuncName(fn), "can answer from the bundle's records", p.Pos(fn.Pos()), "a return value built from a field of the bundle", "every return of this listing method is nil (or independent of the bundle): what the manifest recorded cannot be read back")
 	}
 }
